@@ -1,6 +1,7 @@
 """C12 — accepted work is done exactly once; work_wait returns only when idle; a graceful stop drains."""
 import json, os, re, subprocess, time
 import vlib
+from props import c12_job
 
 MANIFEST = dict(
     level=("proof", "Coq theorems over an LTS of work.c (1 acceptor, n >= 1 workers, every interleaving of critical "
@@ -10,14 +11,28 @@ MANIFEST = dict(
            "termination of work_fini; refutation witnesses for the && guard and for the test-then-accept stop window. "
            "The guards of the two wait loops are probed from work.c on every run (GenWork.v) and a theorem states "
            "verified-instance-or-counterexample for them; tied to the code by replaying the witnesses and by "
-           "checking the event log of the real work.c (wrapped pthread calls) as a run of the extracted LTS.", "7 C12"),
+           "checking the event log of the real work.c (wrapped pthread calls) as a run of the extracted LTS.  "
+           "Acceptor (job.c, job_accept): the function is translated from its source text into a small program "
+           "(GenJob.v) on every run; Coq theorems for every environment (answers of accept/time/work_queue/..., signal "
+           "deliveries inside every call and before every flag access): every accepted connection is handed to "
+           "work_queue exactly once and never closed by the acceptor, every descriptor shortage is followed by work_wait "
+           "before the next accept whatever the log rate limiter remembers, the loop is left only at the test before "
+           "accept, work_fini (w,1) once and only after SIGINT/SIGTERM, SIGHUP served within one accept; tied to the code "
+           "by running job.c itself against scripted environments and comparing call for call.", "7 C12"),
     note="Partial: liveness is 'a finishing schedule exists from every reachable state' + 'no stuck state', not "
          "termination under a fairness operator; the mutex/condvar/cancellation semantics of pthreads are the model's "
          "premises; the C code is tied by differential testing and schedule fuzzing, not verified. Trusted: Coq "
-         "kernel+vm_compute, guard probe, extraction, harness/driver glue.",
+         "kernel+vm_compute, guard probe, extraction, harness/driver glue.  Acceptor: the environment of job_accept is "
+         "modelled as answers to its calls plus signal deliveries inside calls and before flag accesses (a call that "
+         "never returns = end of the script); tools/facts/job.py (translator of job_accept's and sig_handler's source text "
+         "into GenJob.v) is trusted and validated on every run by running job.c and the interpreter of the translated "
+         "program on the same scripts; the harness defines work_*/log_*/m_msg_*/fd_set_nonblocking/gids_update itself "
+         "(m_msg_destroy's close of the bound descriptor is the event D:<fd>) and installs a copy of sig_handler.",
     technique="Coq proof (inductive invariants via count_occ + lia, measure-based progress) + probed guard tables + "
               "trace-inclusion check of the real event log in the extracted LTS + deterministic witness replays + "
-              "schedule fuzzing under ASan")
+              "schedule fuzzing under ASan; acceptor (job.c): source-text translation into a program model + Coq "
+              "theorems over all environments + scripted environments (wrapped accept/time/close, real signals) run "
+              "through job.c and the extracted interpreter, clause monitors on the implementation's call log")
 
 WRAPS = ["pthread_create", "pthread_mutex_init", "pthread_cond_init", "pthread_mutex_lock", "pthread_mutex_unlock",
          "pthread_cond_wait", "pthread_cond_signal", "pthread_cancel", "pthread_join", "pthread_testcancel"]
@@ -301,11 +316,24 @@ def guard_text(tab):
 
 def run(ctx):
     ctx.level = "proof"
-    proved = vlib.prove(ctx, ["Properties_C12.v"], facts=["work"])
+    proved = vlib.prove(ctx, ["Properties_C12.v", "Properties_C12_job.v"], facts=["work", "job"])
     ctx.log("proofs:", "ok" if proved else "BROKEN: " + getattr(ctx, "broken_obligation", "?"))
+    replay = json.load(open(ctx.replay)) if ctx.replay else None
+    # ---- the acceptor (job.c): its own harness, model and clauses; independent of the work-crew part below ----
+    job_found = False
+    if not (replay and ("case_line" in replay or replay.get("finding_key"))):
+        job_found = c12_job.run(ctx, proved, replay if replay and "job_script" in replay else None)
+        if replay and "job_script" in replay:
+            return
     tabs = read_tables()
     ctx.cov["code_guards"] = {k: guard_text(v) for k, v in tabs.items()}
-    ctx.cov["rule"] = ("proof: Properties_C12.v over WorkModel, wait-loop guards probed from work.c (GenWork.v); "
+    ctx.cov["rule"] = ("acceptor: Properties_C12_job.v over JobModel with job_accept translated from job.c's text (GenJob.v); "
+                       "scripts of answers and signal deliveries (aligned with the unchanged call sequence: signals at every "
+                       "call of an iteration, every shortage errno inside/outside the rate limiter's window, every failing step "
+                       "of the hand-off, stop before/inside the loop, SIGHUP inside its own service; plus unaligned random ones) "
+                       "through /repo's job.c under ASan and through the extracted interpreter; call logs equal; clauses "
+                       "evaluated on job.c's log by the check's monitors and by the extracted Coq monitors.  Work crew: "
+                       "proof: Properties_C12.v over WorkModel, wait-loop guards probed from work.c (GenWork.v); "
                        "correspondence: generated programs (n in 1..8, bursts, slow/fast jobs, work_wait / work_fini at "
                        "random points, jitter in wrapped pthread calls and in the job) through /repo's work.c under "
                        "ASan; observables = per-item run count, unfinished items at each work_wait return, at the first "
@@ -324,9 +352,6 @@ def run(ctx):
         return
     oracle = vlib.build_oracle(ctx, "work")
 
-    replay = None
-    if ctx.replay:
-        replay = json.load(open(ctx.replay))
     if replay and replay.get("finding_key") == FINDING_KEY_ACCEPT:
         accept_window(ctx)
         return
@@ -457,9 +482,13 @@ def run(ctx):
                       "directly on the implementation holds on all %d programs" % (len(corr), prog, what[:400], len(progs)),
                       {"obligation": "correspondence WorkModel ~ work.c (event log)", "case_line": prog, "what": what,
                        "impl_output": o[:3000]}, found_input=False)
-    elif not proved:
-        ctx.violation("proof obligation no longer checks: %s" % getattr(ctx, "broken_obligation", "?"),
-                      {"obligation": getattr(ctx, "broken_obligation", "?"), "log": ctx.proof_log[-3000:]},
+    elif not proved and not job_found:
+        md = getattr(ctx, "job_model_diff", None)
+        ctx.violation("proof obligation no longer checks: %s%s" % (getattr(ctx, "broken_obligation", "?"),
+                      (" (job_accept as translated from job.c is not the program the theorems are proved for: on script `%s` it "
+                       "does %s where the verified program does %s; the clauses hold on job.c's call log for all scripts tried)"
+                       % (md["script"], md["translated_source"][:400], md["verified_program"][:400])) if md else ""),
+                      {"obligation": getattr(ctx, "broken_obligation", "?"), "log": ctx.proof_log[-3000:], "job_model_diff": md},
                       found_input=False)
 
 
